@@ -176,6 +176,8 @@ inst!(b_feed_6, 9, check_feed, 6);
 inst!(b_feed_drop_0, 3, check_feed_drop, 0);
 inst!(b_feed_drop_4, 7, check_feed_drop, 4);
 inst!(b_feed_vec_4, 7, check_feed_vec, 4);
+inst!(b_feed_8, 11, check_feed, 8);
+inst!(b_feed_drop_6, 9, check_feed_drop, 6);
 //@thorough-end
 
 //@ prefix=canary kind=canary clause=vacuity canary
